@@ -28,7 +28,8 @@ PROGRAMS = {
     "Prog_2W1R": [[["upd", 2], ["upd", 1]], [["upd", 3], ["try", 1]], [["snap"]]],
     "Prog_1W1R": [[["upd", 1], ["upd", 2], ["upd", 3]], [["snap"], ["snap"]]],
     "Prog_Mixed": [[["upd", 2], ["snap"]], [["try", 1], ["upd", 3]]],
-    "Prog_2W2R": [[["upd", 1], ["upd", 3]], [["upd", 2], ["try", 4]], [["snap"], ["snap"]], [["snap"]]],
+    "Prog_2W2R": [[["upd", 1], ["upd", 3]], [["upd", 2]], [["snap"]], [["snap"]]],
+    "Prog_2W2R_big": [[["upd", 1], ["upd", 3]], [["upd", 2], ["try", 4]], [["snap"], ["snap"]], [["snap"]]],
 }
 
 
